@@ -18,6 +18,7 @@ import (
 	"context"
 	"database/sql"
 	"encoding/json"
+	"errors"
 	"flag"
 	"fmt"
 	"math/rand"
@@ -211,6 +212,8 @@ type C16P struct {
 	Rows  [][]int `json:"rows"`
 	Steps []C16St `json:"steps"`
 	Fin   C16F    `json:"fin"`
+	// Fault (e2e only): the first SELECT of the finisher fails at the driver
+	Fault bool `json:"fault,omitempty"`
 }
 
 type C16O struct {
@@ -411,6 +414,8 @@ func c16ErrClass(err error) string {
 		return "ok"
 	case strings.Contains(err.Error(), "UNIQUE constraint failed"):
 		return "unique"
+	case strings.Contains(err.Error(), "c16-injected"):
+		return "injected"
 	}
 	return "other:" + err.Error()
 }
@@ -424,6 +429,19 @@ type c16RealOut struct {
 func (e *c16Env) runReal(p *C16P) (out c16RealOut) {
 	e.setTable(p.Soft, p.Rows)
 	e.rec.Reset()
+	if p.Fault {
+		fired := false
+		e.rec.mu.Lock()
+		e.rec.Fault = func(idx int, ev *Event) error {
+			if !fired && (ev.Kind == "query" || ev.Kind == "stmt_query") && strings.HasPrefix(strings.ToUpper(strings.TrimSpace(ev.SQL)), "SELECT") {
+				fired = true
+				return errors.New("c16-injected query failure")
+			}
+			return nil
+		}
+		e.rec.mu.Unlock()
+		defer func() { e.rec.mu.Lock(); e.rec.Fault = nil; e.rec.mu.Unlock() }()
+	}
 	defer func() {
 		if x := recover(); x != nil {
 			out.Err = fmt.Sprint("panic:", x)
@@ -818,6 +836,9 @@ func c16GenLogicalOn(rng *rand.Rand, rich bool, soft bool, rows [][]int) *C16P {
 			p.Steps = append(p.Steps, C16St{K: "attrs"}) // Attrs() with no argument resets
 		}
 		rng.Shuffle(len(p.Steps), func(i, j int) { p.Steps[i], p.Steps[j] = p.Steps[j], p.Steps[i] })
+		if !rich && rng.Intn(10) == 0 {
+			p.Fault = true
+		}
 	}
 	return p
 }
@@ -1242,6 +1263,11 @@ func c16RefRun(p *C16P) C16O {
 	case "create":
 		rec, errc = t.create(p.Fin.Row, rule)
 	default:
+		if p.Fault {
+			// the lookup itself failed: the error is reported and nothing is written (creating a record
+			// without knowing that no match exists would break "first match or else create")
+			return C16O{Rows: t.dump(), Err: "injected"}
+		}
 		if p.Fin.Inl != nil {
 			p.Fin.Inl.eqs(&e)
 		}
